@@ -12,7 +12,7 @@ _dyn_src = """
 (declare-datatypes ((Dyn 0)) ((
   (DInt (d_int Int)) (DBool (d_bool Bool)) (DFloat (d_flt Flt)) (DStr (d_str (Seq Int)))
   (DList (d_list (Seq Dyn))) (DDict (d_map (Array String Dyn)))
-  (DNone) (DAbsent) (DRef (d_ref Ref)))))
+  (DNone) (DAbsent) (DRef (d_ref Ref)) (DName (d_name String)))))
 (declare-const __dyn_probe Dyn)
 """
 _decls: Dict[str, Any] = {}
